@@ -49,7 +49,7 @@ def op_configs(quick):
            ("maxwell", "electric_field", ("RWG",), ("SNC",), 0.8),
            ("sparse", "identity", scal0, scal0, None),
            # each hypersingular assembler is a hand-written twin of the others: all three are in the quick tier
-           ("helmholtz", "hypersingular", ("P1",), ("P1",), 1.3 + 0.2j),
+           ("helmholtz", "hypersingular", ("P1",), ("P1",), 1.3 - 0.2j),   # Im k < 0 is a wavenumber too
            ("modified_helmholtz", "hypersingular", ("P1",), ("P1",), 0.6)]
     if not quick:
         cfg += [("laplace", "adjoint_double_layer", scal0, scal0, None),
@@ -60,7 +60,7 @@ def op_configs(quick):
                 ("modified_helmholtz", "double_layer", scal0, scal0, 1.4),
                 ("modified_helmholtz", "adjoint_double_layer", scal0, scal0, 0.5),
                 ("modified_helmholtz", "hypersingular", ("P1", "DP1"), ("P1", "DP1"), 0.6),
-                ("maxwell", "magnetic_field", ("RWG",), ("SNC",), 1.1 + 0.2j),
+                ("maxwell", "magnetic_field", ("RWG",), ("SNC",), 1.1 - 0.2j),
                 ("sparse", "laplace_beltrami", ("P1", "DP1"), ("P1", "DP1"), None),
                 ("sparse", "identity", ("RWG",), ("SNC",), None),
                 ("sparse", "identity", ("RWG", "SNC"), ("RWG", "SNC"), None)]
